@@ -536,22 +536,27 @@ func c18Run(ctx *core.Ctx) {
 			continue
 		}
 		seenLen[n] = true
-		mid := strings.Repeat("a", n)
-		for _, p := range affixes {
-			for _, s := range affixes {
-				k++
-				if !ctx.Mine(k) {
-					continue
+		for _, midRune := range []string{"a", "\u0434"} { // one-byte and two-byte representative of the name-like class: limits count characters
+			mid := strings.Repeat(midRune, n)
+			if midRune != "a" && n < 48 {
+				continue // the multi-byte variant matters around the limits only
+			}
+			for _, p := range affixes {
+				for _, s := range affixes {
+					k++
+					if !ctx.Mine(k) {
+						continue
+					}
+					if ctx.Expired() {
+						ctx.Cap("wall-clock cap inside boundary-length families")
+						return
+					}
+					x := p + mid + s
+					for _, emb := range []string{x, x + ":x", x + ":x#r", x + ":*", "t:" + x, "t:" + x + "#r", "t:x#" + x} {
+						c18CheckString(ctx, emb)
+					}
+					ctx.Flag("boundary-families")
 				}
-				if ctx.Expired() {
-					ctx.Cap("wall-clock cap inside boundary-length families")
-					return
-				}
-				x := p + mid + s
-				for _, emb := range []string{x, x + ":x", x + ":x#r", x + ":*", "t:" + x, "t:" + x + "#r", "t:x#" + x} {
-					c18CheckString(ctx, emb)
-				}
-				ctx.Flag("boundary-families")
 			}
 		}
 	}
@@ -569,6 +574,12 @@ func c18Run(ctx *core.Ctx) {
 			s := strings.Repeat("t", tl) + ":" + strings.Repeat("i", il)
 			c18CheckString(ctx, s)
 			c18CheckString(ctx, s+"#r")
+			// the same lengths in characters with a two-byte type name and first id character
+			if il > 0 {
+				m := strings.Repeat("\u0434", tl) + ":" + "\u0434" + strings.Repeat("i", il-1)
+				c18CheckString(ctx, m)
+				c18CheckString(ctx, m+"#r")
+			}
 		}
 	}
 }
@@ -578,7 +589,7 @@ func init() {
 		ID: "C18",
 		Rule: "every string of length <= 5 (quick) / <= 7 (thorough) over one representative per character class the five rule strings distinguish " +
 			"(classes computed from the rule strings; fixed representatives a : # @ * space -), every string of length <= 3/4 over 12 second representatives, " +
-			"boundary families p.a^n.s for n within 2 of 1,2,50,254,256 in every field position; each string goes through all nine validators. " +
+			"boundary families p.c^n.s for n within 2 of 1,2,50,254,256 in every field position with c a one-byte and a two-byte character; each string goes through all nine validators. " +
 			"states = distinct accept/reject signatures over the nine validators; non-trivial = distinct strings accepted by at least one validator",
 		Assume: []string{
 			"whitespace means what \\s denotes in Go's RE2 (space, \\t, \\n, \\f, \\r)",
